@@ -12,7 +12,7 @@ pub const DEF: CheckDef = CheckDef {
     id: "C10",
     run,
     technique: "exhaustive enumeration of all ledgers of up to 3 transactions over an 8-transaction alphabet carrying holdings and price facts x target-precision contexts x targets x conversion strategies x report dates x date ranges; `Ledger::balance` with conversion runs on the real code and is compared with reference holdings converted by the brute-force price reference",
-    rule: "case = (precision of T, sequence of <= 4 (thorough 5) transactions from an 8-transaction alphabet over accounts {P,Q}, commodities {A,B,T} with costs giving direct, reverse-only and two-hop price chains); inside a case every target {A,B,T} x strategy {up-to-date at d1, d2, d3+1; historical} x 9 date ranges is queried, and the whole ledger is also run with all amounts x3 (linearity). states = distinct ledgers, transitions = converted balance queries compared. MUST: expected = sum of holdings (up-to-date: per account/commodity in range, at `now`; historical: per posting at its transaction date) converted by RefPrices, rounded only to the target's declared precision; MUST-FAIL iff a non-zero needed amount has no rate",
+    rule: "case = (precision of T, sequence of <= 4 (thorough 5) transactions from a 9-transaction alphabet over accounts {P,Q}, commodities {A,B,T} with costs giving direct, reverse-only and two-hop price chains); inside a case every target {A,B,T} x strategy {up-to-date at d1, d2, d3+1; historical} x 9 date ranges is queried, and the whole ledger is also run with all amounts x3 (linearity). states = distinct ledgers, transitions = converted balance queries compared. MUST: expected = sum of holdings (up-to-date: per account/commodity in range, at `now`; historical: per posting at its transaction date) converted by RefPrices, rounded only to the target's declared precision; MUST-FAIL iff a non-zero needed amount has no rate",
     assumptions: &[
         "price chains in the alphabet are unique for every needed pair; a query whose reference accept-set has more than one rate is DON'T-CARE",
         "values compared with relative tolerance 1e-13 (reciprocal rates are 28-digit decimals; exact rational difference when it fits 128 bits); when the target has a declared precision the result must be a multiple of it within half a unit of the exact value",
@@ -35,6 +35,8 @@ struct Post {
     com: usize,
     /// cost: (rate as text, rate as Q, commodity)
     cost: Option<(&'static str, usize)>,
+    /// the cost is written as a total (`@@ |amount| * rate`) instead of per unit
+    total: bool,
 }
 
 #[derive(Clone)]
@@ -44,10 +46,13 @@ struct T {
 }
 
 fn p(acct: &'static str, milli: i64, com: usize) -> Post {
-    Post { acct, milli, com, cost: None }
+    Post { acct, milli, com, cost: None, total: false }
 }
 fn pc(acct: &'static str, milli: i64, com: usize, rate: &'static str, rc: usize) -> Post {
-    Post { acct, milli, com, cost: Some((rate, rc)) }
+    Post { acct, milli, com, cost: Some((rate, rc)), total: false }
+}
+fn pt(acct: &'static str, milli: i64, com: usize, rate: &'static str, rc: usize) -> Post {
+    Post { acct, milli, com, cost: Some((rate, rc)), total: true }
 }
 
 fn alphabet() -> Vec<T> {
@@ -60,6 +65,8 @@ fn alphabet() -> Vec<T> {
         T { day: D1, ps: vec![p("P", 1_500, 2), p("Q", -1_500, 2)] },
         T { day: D3, ps: vec![pc("Q", 3_000, 0, "1.255", 2), p("P", -3_765, 2)] },
         T { day: D2, ps: vec![pc("P", 5_000, 1, "7", 2), p("Q", -35_000, 2)] },
+        // a sale priced by its total: -2 B @@ 8 T states 1 B = 4 T
+        T { day: D3, ps: vec![pt("P", -2_000, 1, "4", 2), p("Q", 8_000, 2)] },
     ]
 }
 
@@ -81,7 +88,11 @@ fn render(tprec: Option<u32>, seq: &[&T], mult: i64) -> String {
         for po in &t.ps {
             s.push_str(&format!("  {}  {} {}", po.acct, fmt_milli(po.milli * mult), NAMES[po.com]));
             if let Some((r, rc)) = po.cost {
-                s.push_str(&format!(" @ {} {}", r, NAMES[rc]));
+                if po.total {
+                    s.push_str(&format!(" @@ {} {}", Q::new((po.milli * mult).abs() as i128, 1000).mul(Q::parse(r)), NAMES[rc]));
+                } else {
+                    s.push_str(&format!(" @ {} {}", r, NAMES[rc]));
+                }
             }
             s.push('\n');
         }
